@@ -228,9 +228,10 @@ func historyStream(f gallina.Flags, meta *gallina.Meta) {
 	w := &shardWriter{Dir: f.Out, Prefix: "h", Type: "CorrC01.case", PerShard: 32,
 		Preamble: "From Coq Require Import List ZArith.\nFrom Verif Require Import lib.Int64 model.TsdbSpec model.Tsdb corr.CorrC01 corr.CorrC20H.\nImport ListNotations.\nOpen Scope Z_scope.\n"}
 	cp := histCorpus()
-	if os.Getenv("C20_FINDINGS") != "" {
-		cp = append(cp, histFindings()...)
-	}
+	// reproducers of the listed known finding (known-findings.txt) always run, so that the
+	// KNOWN-FINDING line is printed and a repair of the code shows up; generated histories avoid
+	// the regime unless C20_FINDINGS=1
+	cp = append(cp, histFindings()...)
 	if v := os.Getenv("C20_HIST"); v != "" { // debugging aid: one generated history
 		var idx int
 		fmt.Sscan(v, &idx)
